@@ -64,7 +64,7 @@ def unclassified_mutators(F, cg):
         name = p[len(GS) + 2:]
         if "::" in name or r["vis"] != "pub":
             continue
-        if "&'a mut " + GS not in r["sig"] and "&mut " + GS not in r["sig"]:
+        if " mut " + GS not in r["sig"].split("->")[0].split(",")[0]:
             continue
         if name in known:
             continue
